@@ -515,6 +515,13 @@ func (b *builder) appendExt(a, exp jmap, want string) bool {
 		r.add("prop", "C03:"+kind+".len", "encoder of %s produced %d bytes, specification %d", kind, len(ext), n)
 		return false
 	}
+	if jbool(exp, "stable") || want == "ErrPayloadTooBig" {
+		// the result belongs to the caller: encode decoys (same goroutine and another one) and look again
+		if why := b.stableProbe(kind, ext); why != "" {
+			r.add("prop", "C03:stable."+kind, "%s", why)
+			return false
+		}
+	}
 	if proto != 0 {
 		b.proto = proto
 	}
@@ -566,6 +573,50 @@ func (b *builder) appendExt(a, exp jmap, want string) bool {
 	b.leaf = kind
 	b.stepCheck(a, layer+".AppendPayload", gotLen, gotLF)
 	return true
+}
+
+// stableProbe re-runs the encoder that produced ext with other values, on this goroutine and concurrently
+// on a second one, and reports if the bytes of the earlier result changed.
+func (b *builder) stableProbe(kind string, ext []byte) string {
+	if kind != "dns" && kind != "ns" && kind != "na" {
+		return ""
+	}
+	snap := append([]byte{}, ext...)
+	decoy := func(rng *rand.Rand) {
+		switch kind {
+		case "dns":
+			packet.EncodeDNSQuery(uint16(rng.Intn(65536)), uint16(rng.Intn(65536)), makeName(rng, 1+3*rng.Intn(40)+2), uint16(1+rng.Intn(255)))
+		case "ns":
+			packet.ICMP6NeighborSolicitationMarshal(rand6(rng), randBytes(rng, 6))
+		case "na":
+			packet.ICMP6NeighborAdvertisementMarshal(true, true, true, packet.Addr{MAC: randBytes(rng, 6), IP: rand6(rng)})
+		}
+	}
+	seed := b.rng.Int63()
+	done := make(chan struct{})
+	go func() {
+		r2 := rand.New(rand.NewSource(seed))
+		for i := 0; i < 4; i++ {
+			decoy(r2)
+		}
+		close(done)
+	}()
+	for i := 0; i < 4; i++ {
+		decoy(b.rng)
+	}
+	<-done
+	if !bytes.Equal(snap, ext) {
+		name := map[string]string{"dns": "EncodeDNSQuery", "ns": "ICMP6NeighborSolicitationMarshal", "na": "ICMP6NeighborAdvertisementMarshal"}[kind]
+		return fmt.Sprintf("the %d bytes returned by %s changed after later calls of %s: was %x.., is %x..", len(ext), name, name, snap[:min(len(snap), 12)], ext[:min(len(ext), 12)])
+	}
+	return ""
+}
+
+func min(a, b int) int {
+	if a < b {
+		return a
+	}
+	return b
 }
 
 func (b *builder) etherAppendExt(a, exp jmap, want string) bool {
